@@ -527,6 +527,20 @@ def oracle(case):
 			return {'what': 'form round trip (charset %s) raised %s: %s' % (cs, exc_name(e), e), 'case': describe(case), 'finding': None}
 		if back != tuple(pairs) or tuple(back2) != tuple(pairs):
 			return {'what': 'form round trip (charset %s): %r came back as %r / through Body %r' % (cs, pairs, back, back2), 'case': describe(case), 'finding': None}
+		# the codec called without a charset: whatever its default is, it is the same on both sides
+		try:
+			enc0 = FormURLEncoded.encode(pairs)
+		except UnicodeError:
+			enc0 = None      # text outside the default charset: refused, nothing was produced
+		except Exception as e:
+			return {'what': 'form encode without a charset raised %s: %s' % (exc_name(e), e), 'case': describe(case), 'finding': None}
+		if enc0 is not None:
+			try:
+				back0 = FormURLEncoded.decode(enc0)
+			except Exception as e:
+				back0 = 'raised %s' % exc_name(e)
+			if back0 != tuple(pairs):
+				return {'what': 'form round trip without a charset: %r came back as %r' % (pairs, back0), 'case': describe(case), 'finding': None}
 		return None
 	if k == 'json':
 		from httoop.codecs.application.json import JSON
